@@ -100,6 +100,13 @@ impl Bank {
             options: BankOptions::new("prg_header"),
         }
     }
+
+    /// The header of a program that starts with the given bank: it goes in front of that bank, into the same file
+    pub fn prg_header_for(bank: &Bank) -> Bank {
+        let mut header = Bank::prg_header(bank.range().start);
+        header.options.filename = bank.options.filename.clone();
+        header
+    }
 }
 
 pub struct BinaryWriter;
